@@ -1803,3 +1803,197 @@ Proof.
       rewrite enqueue_plain by reflexivity. rewrite replay_app. cbn [replay fold_left].
       apply apply_view_room_new; [exact Hk0|]. rewrite <- K4b in Htag. exact Htag.
 Qed.
+
+(* ------------------------------------------------------------------ closing functions: sessions only go, rooms are only left *)
+Definition sshrink (s s1 : session) : Prop :=
+  s_kind s1 = s_kind s /\ s_backend s1 = s_backend s /\ (s_room s1 = None \/ s_room s1 = s_room s).
+Definition shrink (h h1 : hub) : Prop :=
+  forall x s1, get_sess h1 x = Some s1 -> exists s, get_sess h x = Some s /\ sshrink s s1.
+
+Lemma sshrink_refl s : sshrink s s.
+Proof. repeat split; auto. Qed.
+Lemma shrink_refl h : shrink h h.
+Proof. intros x s1 H. exists s1. split; [exact H|apply sshrink_refl]. Qed.
+Lemma shrink_trans h1 h2 h3 : shrink h1 h2 -> shrink h2 h3 -> shrink h1 h3.
+Proof.
+  intros A B x s3 H3. destruct (B x s3 H3) as (s2 & H2 & K2 & B2 & R2). destruct (A x s2 H2) as (s1 & H1 & K1 & B1 & R1).
+  exists s1. split; [exact H1|]. split; [congruence|]. split; [congruence|].
+  destruct R2 as [R2|R2]; [now left|]. destruct R1 as [R1|R1]; [left|right]; congruence.
+Qed.
+Lemma shrink_same h h' : same h h' -> shrink h h'.
+Proof.
+  intros E x s1 H1. destruct (same_get _ _ _ _ E H1) as (s & Hs & Hc & _). apply vcore_eq in Hc as (A & B & C & _).
+  exists s. split; [exact Hs|]. split; [exact A|]. split; [exact B|now right].
+Qed.
+Lemma shrink_sessions h h' : h_sessions h' = h_sessions h -> shrink h h'.
+Proof. intros E x s1 H1. exists s1. split; [unfold get_sess in *; now rewrite <- E|apply sshrink_refl]. Qed.
+
+Lemma shrink_leave_room h sid notify : shrink h (fst (leave_room h sid notify)).
+Proof.
+  intros x s1 H1. destruct (N.eqb_spec x sid) as [->|Hne].
+  - destruct (get_sess h sid) as [s|] eqn:Hs.
+    + destruct (leave_room_sid h sid notify s Hs) as (s1' & Hs1' & Hr & K1 & K2 & _). assert (s1' = s1) by congruence. subst.
+      exists s. split; [reflexivity|]. split; [exact K1|]. split; [exact K2|now left].
+    + unfold leave_room in H1. rewrite Hs in H1. cbn in H1. congruence.
+  - destruct (get_sess h x) as [t|] eqn:Ht.
+    + destruct (leave_room_other h sid notify x Hne) as [_ Ho]. destruct (Ho t Ht) as (t' & Ht' & Hc & _).
+      assert (t' = s1) by congruence. subst. apply vcore_eq in Hc as (A & B & C & _).
+      exists t. split; [reflexivity|]. split; [exact A|]. split; [exact B|now right].
+    + exfalso. pose proof (leave_room_core h sid notify x) as Hq. rewrite H1 in Hq.
+      destruct (N.eqb_spec x sid); [contradiction|]. rewrite Ht in Hq. discriminate.
+Qed.
+
+Lemma shrink_close_one h sid : shrink h (fst (close_one h sid)).
+Proof.
+  unfold close_one. destruct (get_sess h sid) as [s|]; [|apply shrink_refl].
+  pose proof (shrink_leave_room h sid true) as G1. destruct (leave_room h sid true) as [h1 o1].
+  destruct (quiet_release_mcu h1 sid) as [E2 _]. destruct (release_mcu h1 sid) as [h2a o2a]. cbn [fst snd] in *.
+  match goal with |- context [scrub ?hh sid] => set (h2 := hh) end.
+  assert (G : shrink h (drop_vt (detach_conn (scrub h2 sid) (s_conn s)) (s_kind s) sid)).
+  { eapply shrink_trans; [exact G1|]. eapply shrink_trans; [apply shrink_same; exact E2|].
+    destruct (removal_proj h2 sid (s_conn s) (s_kind s)) as (P1 & _). intros x s1 H1. unfold get_sess in H1. rewrite P1, aget_adel in H1.
+    destruct (N.eqb x sid); [discriminate|]. exists s1. split; [exact H1|apply sshrink_refl]. }
+  destruct (s_kind s); exact G.
+Qed.
+Lemma shrink_close_all kids : forall hh oo, shrink hh (fst (close_all kids (hh, oo))).
+Proof.
+  induction kids as [|k kids IH]; intros hh oo; cbn [close_all fold_left fst]; [apply shrink_refl|].
+  pose proof (shrink_close_one hh k) as G1. destruct (close_one hh k) as [h1 o1]. cbn [fst] in G1.
+  fold (close_all kids (h1, oo ++ o1)). eapply shrink_trans; [exact G1|apply IH].
+Qed.
+Lemma shrink_close_session h sid : shrink h (fst (close_session h sid)).
+Proof.
+  unfold close_session. pose proof (shrink_close_one h sid) as G1. destruct (close_one h sid) as [h1 o1]. cbn [fst] in G1.
+  fold (close_all (children h sid) (h1, o1)). eapply shrink_trans; [exact G1|apply shrink_close_all].
+Qed.
+Lemma shrink_close_conn h c : shrink h (fst (close_conn h c)).
+Proof.
+  unfold close_conn. destruct (aget (h_conns h) c) as [cn|]; [|apply shrink_refl].
+  destruct (c_sess cn) as [sid|]; [|apply shrink_sessions; reflexivity].
+  match goal with |- context [close_session ?hh sid] => pose proof (shrink_close_session hh sid) as G; destruct (close_session hh sid) as [h3 o3];
+    assert (G0 : shrink h hh) end.
+  { change (get_sess (set_conns h (adel (h_conns h) c)) sid) with (get_sess h sid). destruct (get_sess h sid) as [s|] eqn:Hs; [|apply shrink_sessions; reflexivity].
+    intros x s1 H1. change (get_sess (put_sess h sid (sess_conn s None)) x = Some s1) in H1. rewrite get_put in H1.
+    destruct (N.eqb_spec x sid) as [->|]; [|exists s1; split; [exact H1|apply sshrink_refl]].
+    injection H1 as <-. exists s. split; [exact Hs|]. repeat split; auto. }
+  cbn [fst] in *. eapply shrink_trans; eauto.
+Qed.
+Lemma shrink_send_conn h c m : shrink h (fst (send_conn h c m)).
+Proof.
+  unfold send_conn. destruct (aget (h_conns h) c); [|apply shrink_refl]. destruct (is_closing h c m); [|apply shrink_refl].
+  pose proof (shrink_close_conn h c) as G. destruct (close_conn h c). exact G.
+Qed.
+Lemma shrink_kick h rs : shrink h (fst (kick_room_session h rs)).
+Proof.
+  unfold kick_room_session. destruct (aget (h_rs2 h) rs) as [sid'|]; [|apply shrink_refl].
+  destruct (get_sess h sid') as [s'|]; [|apply shrink_sessions; reflexivity].
+  pose proof (shrink_leave_room h sid' false) as G1. destruct (leave_room h sid' false) as [h1 o1]. cbn [fst] in G1.
+  assert (Hfin : forall h2, shrink h h2 -> shrink h (fst (close_session h2 sid'))).
+  { intros h2 G2. eapply shrink_trans; [exact G2|apply shrink_close_session]. }
+  assert (Hsend : forall c', shrink h (fst (let '(h2, o2) := send_conn h1 c' (SBye B_room_session_reconnected) in
+                     let '(h3, o3) := close_session h2 sid' in (h3, o1 ++ o2 ++ o3)))).
+  { intros c'. pose proof (shrink_send_conn h1 c' (SBye B_room_session_reconnected)) as G2.
+    destruct (send_conn h1 c' (SBye B_room_session_reconnected)) as [h2 o2]. cbn [fst] in G2.
+    specialize (Hfin h2 (shrink_trans _ _ _ G1 G2)). destruct (close_session h2 sid') as [h3 o3]. exact Hfin. }
+  assert (Hnone : shrink h (fst (let '(h3, o3) := close_session h1 sid' in (h3, o1 ++ [] ++ o3)))).
+  { specialize (Hfin h1 G1). destruct (close_session h1 sid') as [h3 o3]. exact Hfin. }
+  destruct (s_kind s'); destruct (s_conn s') as [c'|]; try apply Hsend; exact Hnone.
+Qed.
+
+(* ------------------------------------------------------------------ telling a session that it is in no room any more *)
+Lemma Jg_send_room0 xr xs h g sid s1 : Jg xr (or_sid xs sid) h g -> get_sess h sid = Some s1 -> s_room s1 = None ->
+  is_virtual (s_kind s1) = false ->
+  Jg xr xs (fst (send_session h sid (SRoom 0))) (gouts g (snd (send_session h sid (SRoom 0)))).
+Proof.
+  intros [H V] Hs Hr Hv.
+  rewrite send_session_eq, (target_nonvirtual h sid s1 Hs Hv), (deliver_to_session_eq h sid _ s1 Hs). cbn [filtered seen_after].
+  assert (Hle : sid <= h_nextsid h) by (eapply (j_live _ _ H); eauto).
+  assert (T : forall s7 o2, s_kind s7 = s_kind s1 -> s_backend s7 = s_backend s1 -> s_room s7 = None -> s_conn s7 = s_conn s1 ->
+            s_join s7 = s_join s1 -> (s_conn s7 <> None -> s_pending s7 = []) -> (forall m, In m (s_pending s7) -> no_hello m = true) ->
+            (forall c0, g_bind (gouts g o2) c0 = g_bind g c0) -> (forall x, x <> sid -> g_view (gouts g o2) x = g_view g x) ->
+            replay (s_pending s7) (g_view (gouts g o2) sid) = None ->
+            Jg xr xs (put_sess h sid s7) (gouts g o2)).
+  { intros s7 o2 F1 F2 F3 F4 F5 F6 F7 Gb Gv Gr. split.
+    - apply (Jh_gview _ g _ sid); [|exact Gb|exact Gv|exact Hle]. apply (Jh_put h g sid s1 s7 H Hs).
+      + intros p b r i _ _ _. now left.
+      + rewrite F5. eapply (j_join _ _ H); eauto.
+      + intros k Hk. congruence.
+      + exact F6.
+      + exact F7.
+      + intros Hvv. rewrite F4. apply (j_vconn _ _ H sid s1 Hs). congruence.
+      + intros c0. congruence.
+    - apply Jv_put.
+      + apply (Jv_gview_exempt xr (or_sid xs sid) h g _ (h_bus h) sid V); [now right|exact Gv].
+      + intros _ _. unfold view_ok. rewrite F3. exact Gr. }
+  destruct (s_conn s1) as [c0|] eqn:Hc.
+  - cbn [is_closing fst snd].
+    assert (Hp0 : s_pending s1 = []) by (apply (j_pc _ _ H sid s1 Hs); congruence).
+    assert (Hb0 : g_bind g c0 = Some sid) by (apply (j_bind _ _ H sid s1 c0 Hs Hc)).
+    apply (T s1 [ToConn c0 (SRoom 0)]); auto.
+    + intros m. rewrite Hp0. intros [].
+    + intros c1. rewrite gouts_cons, gouts_nil, (gout_msg g c0 (SRoom 0) sid eq_refl Hb0). reflexivity.
+    + intros x Hx. rewrite gouts_cons, gouts_nil, (gout_msg g c0 (SRoom 0) sid eq_refl Hb0). cbn [g_view].
+      destruct (N.eqb_spec x sid); [contradiction|reflexivity].
+    + rewrite gouts_cons, gouts_nil, (gout_msg g c0 (SRoom 0) sid eq_refl Hb0). cbn [g_view]. rewrite N.eqb_refl, Hp0. reflexivity.
+  - cbn [fst snd]. apply (T (sess_pending s1 (enqueue (s_pending s1) (SRoom 0))) []); auto.
+    + change (s_conn (sess_pending s1 (enqueue (s_pending s1) (SRoom 0)))) with (s_conn s1). rewrite Hc. intros Hn. contradiction.
+    + intros m Hm. change (In m (enqueue (s_pending s1) (SRoom 0))) in Hm. rewrite enqueue_plain in Hm by reflexivity.
+      apply in_app_iff in Hm as [Hm|[<-|[]]]; [|reflexivity]. eapply (j_nohello _ _ H sid s1); eauto.
+    + change (replay (enqueue (s_pending s1) (SRoom 0)) (g_view g sid) = None). rewrite enqueue_plain by reflexivity.
+      rewrite replay_app. reflexivity.
+Qed.
+
+(* ------------------------------------------------------------------ the join request *)
+Lemma gouts_irr_cons g o outs : out_irr o = true -> geq (gouts g outs) (gouts g (o :: outs)).
+Proof. intros Ho. rewrite gouts_cons. apply gouts_geq. now apply gout_irr. Qed.
+
+Lemma Jg_do_join h g c sid s rn rs rep : WF h -> J h g -> get_sess h sid = Some s -> is_virtual (s_kind s) = false ->
+  (forall p, In p (h_bus h) -> not_asj p) ->
+  J (fst (do_join h c sid s rn rs rep)) (gouts g (snd (do_join h c sid s rn rs rep))).
+Proof.
+  intros W HJ Hs Hv Hna. unfold do_join, J in *.
+  destruct (N.eqb_spec rn 0) as [->|Hrn].
+  { destruct (s_room s) as [k0|] eqn:Hk0; [|exact HJ].
+    pose proof (Jg_leave_room none2 none1 no1 h g sid true W HJ) as J1.
+    destruct (leave_room_sid h sid true s Hs) as (s1 & Hs1 & Hr1 & K1 & _).
+    destruct (leave_room h sid true) as [h1 o1]. cbn [fst snd] in *.
+    pose proof (Jg_send_room0 none2 no1 h1 (gouts g o1) sid s1 J1 Hs1 Hr1 ltac:(congruence)) as J2.
+    destruct (send_session h1 sid (SRoom 0)) as [h2 o2]. cbn [fst snd] in *. rewrite gouts_app.
+    destruct (N.eqb (s_user s) 0 && negb (is_internal (s_kind s))); [|exact J2].
+    eapply Jg_same; [|exact J2]. apply same_fields; try reflexivity; apply N.le_refl. }
+  set (k := (s_backend s, rn)). set (rsv := if N.eqb rs 0 then 0 else 1000000 + rs).
+  destruct (match room_of h k with Some r => nmem sid (r_members r) | None => false end) eqn:Hin.
+  { match goal with |- context [send_session ?hh sid (SError E_already_joined)] => assert (E1 : same h hh) end.
+    { destruct (N.eqb (s_rs s) _); [apply same_refl|].
+      eapply same_trans; [apply same_rs_set|]. apply (same_put _ sid s); [unfold get_sess; now rewrite rs_set_sessions|reflexivity|now apply pend_ok_eq]. }
+    match goal with |- context [send_session ?hh sid (SError E_already_joined)] =>
+      pose proof (quiet_send_irr hh sid (SError E_already_joined) eq_refl eq_refl) as Q; destruct (send_session hh sid (SError E_already_joined)) as [h2 o2] end.
+    apply (Jg_quiet none2 no1 h g (h2, o2)); [|exact HJ]. eapply quiet_pre; eauto. }
+  assert (Hnk : s_room s <> Some k).
+  { intros Hk. destruct (wf_room _ _ h W sid s k Hs Hk) as [[]|(r & Hr & Hi)]. rewrite Hr in Hin. apply nmem_In in Hi. congruence. }
+  destruct (is_internal (s_kind s)).
+  { apply (Jg_join_room no1 h g c sid k rsv None 0 s); auto. }
+  (* the backend is asked; the other holder of the room session id goes *)
+  set (P := if N.eqb rs 0 || N.eqb (s_rs s) rsv then (h, []) else kick_room_session h rsv).
+  assert (HP : WF (fst P) /\ Jg none2 no1 (fst P) g /\ grows h (fst P) /\ shrink h (fst P) /\ forallb out_irr (snd P) = true).
+  { unfold P. destruct (N.eqb rs 0 || N.eqb (s_rs s) rsv).
+    - cbn [fst snd]. split; [exact W|]. split; [exact HJ|]. split; [apply grows_refl|]. split; [apply shrink_refl|reflexivity].
+    - destruct (kick_all none2 no1 h g rsv W HJ) as [A B]. split; [now apply wf_kick|]. split; [exact A|]. split; [exact B|].
+      split; [apply shrink_kick|apply kick_irr]. }
+  destruct P as [h1 outs1]. cbn [fst snd] in HP. destruct HP as (W1 & J1 & G1 & S1 & I1).
+  destruct (get_sess h1 sid) as [s1|] eqn:Hs1.
+  2:{ cbn [fst snd]. apply Jg_irr; [cbn; exact I1|exact J1]. }
+  destruct (S1 sid s1 Hs1) as (s' & Hs' & K1 & K2 & K3). assert (s' = s) by congruence. subst s'.
+  assert (Hna1 : forall p, In p (h_bus h1) -> not_asj p).
+  { intros p Hp. destruct G1 as (l & Hl & Hnl). rewrite Hl in Hp. apply in_app_iff in Hp as [Hp|Hp]; auto. }
+  assert (Hgeq : forall X, geq (gouts g X) (gouts g (ToBackend (s_backend s, 1, 0, rn, (if N.eqb rs 0 then 2000000 + sid else rsv), 1) :: outs1 ++ X))).
+  { intros X. rewrite gouts_cons. cbn [gout]. rewrite gouts_app. apply gouts_geq. now apply gouts_irr. }
+  destruct rep as [perms su|code].
+  - pose proof (Jg_join_room no1 h1 g c sid k rsv perms su s1 W1 J1 (fun F => F) Hs1 ltac:(congruence)) as J2.
+    destruct (join_room h1 c sid k rsv perms su) as [h2 o2]. cbn [fst snd] in *.
+    eapply Jg_geq; [apply Hgeq|]. apply J2; [|cbn; congruence|exact Hrn|exact Hna1].
+    destruct K3 as [K3|K3]; congruence.
+  - pose proof (quiet_send_irr h1 sid (SError code) eq_refl eq_refl) as Q.
+    destruct (send_session h1 sid (SError code)) as [h2 o2]. cbn [fst snd].
+    eapply Jg_geq; [apply Hgeq|]. apply (Jg_quiet none2 no1 h1 g (h2, o2)); assumption.
+Qed.
